@@ -440,7 +440,8 @@ impl PsFunc {
         let start = s.find('{').ok_or(PdfError::PostScriptParse)?;
         let end = s.rfind('}').ok_or(PdfError::PostScriptParse)?;
 
-        let ops: Result<Vec<_>, _> = s[start + 1 .. end].split_ascii_whitespace().map(PsOp::parse).collect();
+        let body = s.get(start + 1 .. end).ok_or(PdfError::PostScriptParse)?;
+        let ops: Result<Vec<_>, _> = body.split_ascii_whitespace().map(PsOp::parse).collect();
         Ok(PsFunc { ops: ops? })
     }
 }
